@@ -70,13 +70,6 @@ theorem step_started {c : Config} {s s' : State} {l : Label} (hi : Inv c s) (hs 
       · split at hs <;> cases hs <;> simp [key]
       · cases hs
     · cases hs
-  | vanish i =>
-    simp only [step] at hs
-    split at hs
-    · rename_i hg
-      cases hs
-      simp [started_upd s.st i .vanished (by simp [hg, St.started]) j]
-    · cases hs
 
 theorem startCount_snoc (i : Nat) (tr : List Label) (l : Label) :
     startCount i (tr ++ [l]) = startCount i tr + (if l = .acquireStart i then 1 else 0) := by
@@ -124,7 +117,6 @@ theorem step_tally {c : Config} {s s' : State} {l : Label} (hs : step c s l = so
   | allDone => simp only [step] at hs; split at hs <;> cases hs; rfl
   | acquireStart i => simp only [step] at hs; split at hs <;> cases hs; rfl
   | acquireSkip i => simp only [step] at hs; split at hs <;> cases hs; rfl
-  | vanish i => simp only [step] at hs; split at hs <;> cases hs; rfl
   | finish i r =>
     simp only [step] at hs
     split at hs
